@@ -92,6 +92,7 @@ var c01Attrs = [][]string{
 	{"id", "comment", "sidebar", "main", "x", "author", "pager"},
 	{"style", "display:none", "display:inline", "display:block", "display: inline-block;", "visibility:hidden", "display:", "display:list-item", "DISPLAY:NONE"},
 	{"hidden", ""}, {"aria-hidden", "true", "false"},
+	{"width", "0", "-1", "400", "600", "99999999999999999999", "4e2", ""}, {"height", "0", "-5", "300", "1", "abc", ""},
 	{"role", "navigation", "presentation", "grid", "main", "row", "dialog", "menu"},
 	{"srcset", "a.png 1x, b.png 2x", "", ",", "x 1x,,", " "},
 	{"data-src", "l.png", ""}, {"data-srcset", "l.png 1x", ""}, {"data-tweet-id", "123", ""}, {"data-component", "share"},
